@@ -1,7 +1,7 @@
 --------------------------- MODULE MC_C01_consts ---------------------------
 (* Facts about the working tree that Handlers.tla depends on (binding B1).  This file holds *)
-(* the values of /repo after the fixes deb1f92 and 0db1dbc (both were TRUE on the pinned     *)
-(* tree 573431b); harness/c01.py REGENERATES it at every run from the tree  *)
+(* the values of /repo after the fixes deb1f92, 0db1dbc and 922a2d5 (all three deviations   *)
+(* were TRUE on the pinned tree 573431b); harness/c01.py REGENERATES it at every run from the tree  *)
 (* under test: the two handler lists from conf/pygopherd.conf (shipped default; the         *)
 (* commented "full featureset" list + ZIP), and two behavioural probes of the code:         *)
 (*   NulRaises        HandlerMultiplexer.getHandler lets the ValueError of os.stat on a     *)
@@ -11,7 +11,7 @@
 (*   NestedZipProbesCwd  ZIPHandler, re-run on the index of an archive, tests a member named  *)
 (*                    *.zip with zipfile.is_zipfile(<archive-internal RELATIVE path>), i.e.  *)
 (*                    it opens <working directory>/<member path>                            *)
-NestedZipProbesCwd == TRUE
+NestedZipProbesCwd == FALSE
 NulRaises == FALSE
 ZipCountsAsReal == FALSE
 DefaultList == <<"HTMLURLHandler", "BuckGophermapHandler", "MaildirFolderHandler", "MaildirMessageHandler",
